@@ -1364,6 +1364,12 @@ func exprVarName(n ast.IsNode) types.String {
 		return nd.Name
 	}
 	if nd, ok := n.(ast.NodeTypeAccess); ok {
+		// The name spells the access path with "." as separator. An attribute whose name
+		// contains a "." (only writable as e["a.b"]) would make two different paths read
+		// the same, so such an access gets no name, hence no capability.
+		if strings.Contains(string(nd.Value), ".") {
+			return ""
+		}
 		if parent := exprVarName(nd.Arg); parent != "" {
 			return parent + "." + nd.Value
 		}
